@@ -109,6 +109,27 @@ def run(ctx: Ctx):
                 m2.blocks.append(blk)
         if not m2.complete or bytes(m2.data) != pattern(n) or m2.header.stream != 6 or m2.header.function != 11:
             ctx.violation({"check": "join", "n": n, "what": f"reassembled body/header differs for body of {n} bytes"})
+    # ---- the block number and E-bit of the header a message is built from are not input: blocks are numbered 1..n whatever they say
+    # (e.g. a message built from the header of a received multi-block message, which is its last block's header)
+    nhdr = 0
+    for v in lv:
+        n = v["n"]
+        want = [bytes(b) for b in v["blocks"]]
+        for blk_in in (1, 2, 3, 255, 256, 1000, 32767):
+            nhdr += 1
+            try:
+                msg = SecsIMessage(mk_header(dict(h0, blk=blk_in), SecsIHeader), pattern(n))
+                got = [bytes(b.encode()) for b in msg.blocks]
+            except Exception as exc:  # noqa: BLE001
+                ctx.violation({"check": "split", "n": n, "header_block_field": blk_in, "error": type(exc).__name__,
+                               "what": f"body of {n} bytes built from a header whose block-number field is {blk_in}: {exc!r}"})
+                continue
+            if got != want:
+                nums = [b.header.block for b in msg.blocks]
+                ctx.violation({"check": "split", "n": n, "header_block_field": blk_in, "numbers": nums[:6],
+                               "what": f"body of {n} bytes built from a header whose block-number field is {blk_in}: blocks numbered {nums[:6]} "
+                                       f"instead of 1..{len(want)}"})
+    ctx.extra["splits_from_headers_with_a_block_number"] = nhdr
     # ---- big bodies up to the block-number limit
     for v in bv:
         n = v["n"]
